@@ -156,13 +156,23 @@ package sipsp
 
 //@ func GetHdrType(name) (r)
 //@   loop 0 "for _, h := range hdrNameLookup[i]"
-//@     invariant -1 <= rangeindex && rangeindex < len(hdrNameLookup[i])
+//@     invariant -1 <= rangeindex && rangeindex < len(hdrNameLookup[i]) && 0 <= i && i < 64 && len(name) > 0 && i == hashHdrName(name)
+//@     invariant[C16] forall(j, 0, rangeindex+1, !cieq(name, hdrNameLookup[i][j].n))
+//@     cases i 0 63
 //@     decreases len(hdrNameLookup[i]) - rangeindex
+//@   ensures[C16,*] "hdr-range": r >= HdrFrom && r <= HdrOther
+//@   ensures[C16,*] "hdr-exact": forall(e, 0, 19, cieq(name, hdrName2Type[e].n) ==> r == hdrName2Type[e].t)
+//@   ensures[C16,*] "hdr-other": r != HdrOther ==> exists(e, 0, 19, cieq(name, hdrName2Type[e].n) && r == hdrName2Type[e].t)
 
 //@ func GetMethodNo(buf) (r)
 //@   loop 0 "for _, m := range mthNameLookup[i]"
-//@     invariant -1 <= rangeindex && rangeindex < len(mthNameLookup[i])
+//@     invariant -1 <= rangeindex && rangeindex < len(mthNameLookup[i]) && 0 <= i && i < 32 && len(buf) > 0 && i == hashMthName(buf)
+//@     invariant[C16] forall(j, 0, rangeindex+1, !bytesEq(buf, mthNameLookup[i][j].n))
+//@     cases i 0 31
 //@     decreases len(mthNameLookup[i]) - rangeindex
+//@   ensures[C16,*] "method-range": r >= 1 && r <= MOther
+//@   ensures[C16,*] "method-exact": forall(m, 1, 15, bytesEq(buf, Method2Name[m]) ==> int(r) == m)
+//@   ensures[C16,*] "method-other": r != MOther ==> bytesEq(buf, Method2Name[r])
 
 // ---- name-addr values (From / To / Contact / PAI) ----
 
@@ -313,6 +323,9 @@ package sipsp
 //@   ensures[C08] "reply-never-request-grammar": pl_old.state == flInit && isReplyStart(buf, offs) && err == ErrHdrBadChar ==>
 //@             !(isDigit(buf[offs+8]) && isDigit(buf[offs+9]) && isDigit(buf[offs+10]) && buf[offs+11] == ' ')
 //@   ensures[C08] "fin": err == ErrHdrOk ==> pl.state == flFIN
+//@   ensures[C08] "method": pl_old.state == flInit && err == ErrHdrOk && !isReplyStart(buf, offs) ==>
+//@             forall(m, 1, 15, bytesEq(pl.Method.Get(buf), Method2Name[m]) ==> int(pl.MethodNo) == m) &&
+//@             (pl.MethodNo != MOther ==> bytesEq(pl.Method.Get(buf), Method2Name[pl.MethodNo])) && pl.MethodNo >= 1 && pl.MethodNo <= MOther
 
 // ---- Reset / Init make a used object new (C12) ----
 // For objects whose Reset wipes the whole struct the postcondition is "every cell is zero", i.e. equal to
